@@ -2,9 +2,9 @@
 \* Binds the composed front end  text --Lexer--> tokens --ParseSel--> AST --Ir!Compile--> IR  to the code:
 \* the IR the real parser built for a selector TEXT (projected by harness/irproj.py) must equal the projection of
 \* Compile(ParseText(text)).  No AST is handed over by the harness: everything between the characters and the IR is the spec's.
-\*   event = [id, text (Seq(Nat)), ir (projected real IR), pool (Seq(Str) attribute value pool)]
+\*   event = [id, text (Seq(Nat)), ir (projected real IR), pool (Seq(Str) attribute value pool), custom (optional: Seq([name, def]) alias map)]
 EXTENDS Trace_Ir, IrState
-ExpectedP(e) == ProjList(e.pool, CompileText(e.text))      \* IrState: state pseudo-classes expanded from their definition texts
+ExpectedP(e) == ProjList(e.pool, IF "custom" \in DOMAIN e THEN CompileTextC(e.text, e.custom) ELSE CompileText(e.text))      \* IrState: state pseudo-classes expanded from their definition texts
 InitP == l = 0
 NextP == /\ l < Len(Tr)
          /\ l' = l + 1
